@@ -241,6 +241,62 @@ def channel_end_identity_rule(run):
         run.broke('channel::remote_idx/self_idx: fewer than 4 endpoint comparisons found (%d)' % n)
 
 
+def failed_connect_resumes_parked_rule(run):
+    """Reads, waits and writes started while the connect is in progress are parked until its outcome is known.  When the
+    outcome arrives as a packet (the acceptor closed while the SYN was in flight or queued: refusal / reset) the branch that
+    completes the connect handler also re-dispatches every parked operation - it now fails - instead of leaving them
+    parked on a socket that has no channel any more."""
+    fx = run.fx
+    run.clause('a connect that fails by packet fails what was waiting for it: the branch that completes m_connect_handler with the packet\'s error re-dispatches (or aborts) the parked send, receive and wait-receive handlers')
+    ip = fx.fn1(T + '::incoming_packet')
+    run.touch(ip)
+    comp = [fl for fl in handlers.flows_in(fx, ip) if fl.entity == 'field:' + T + '::m_connect_handler' and fl.dest in ('post', 'defer', 'dispatch')]
+    def in_error_branch(n):
+        return any('error' in q.render(ip, a_) and 'p.type' in q.render(ip, a_) and p_ for a_, p_ in q.guards_at(ip, n))
+    fail = [fl for fl in comp if in_error_branch(fl.site)]
+    if not fail:
+        run.violation('R4', 'failed-connect-resumes-parked', T + '::incoming_packet', ip.loc(), 'no branch completes m_connect_handler from an error packet (reset-completes-pending-connect)')
+        return
+    site = fail[0].site
+    for slot, redo in (('m_send_handler', ('async_write_some_impl', 'abort_send_handlers')), ('m_recv_handler', ('async_read_some_impl', 'abort_recv_handlers')), ('m_wait_recv_handler', ('async_wait_read_impl', 'abort_recv_handlers'))):
+        calls = [c for c in ip.calls() if (q.callee_name(c) or '').split('::')[-1] in redo and in_error_branch(c) and
+                 (('abort' in (q.callee_name(c) or '')) or any(x['k'] == 'member' and x.get('name') == slot for a_ in c.get('args', []) for x in walk(a_))) and
+                 (q.precedes(ip, site, c) or ip.cfg._reaches(ip.cfg.node_block(site), ip.cfg.node_block(c)) or ip.cfg.node_block(site) == ip.cfg.node_block(c))]
+        run.check(bool(calls), 'R4', 'failed-connect-resumes-parked', '%s: %s' % (T + '::incoming_packet', slot), ip.loc(site),
+                  'the branch that completes the pending connect with the error of a packet (refused by the forwarder of a closed acceptor, reset by an acceptor that closed with the connect queued) leaves %s parked: an operation started while the connect was in progress is never completed - on the timer refusal path the same operation fails at once with not_connected' % slot,
+                  're-dispatched through %s' % redo[0])
+
+
+def listen_means_listening_rule(run):
+    """A listen() that reports success leaves the acceptor listening: the value it stores satisfies internal_is_listening()
+    for every backlog a caller may pass, negative ones included (asio and ::listen accept them; -1 is the library's own
+    default argument): negative backlogs are mapped to a non-negative default before the store."""
+    fx = run.fx
+    run.clause('a successful listen() listens: every negative backlog is replaced by a non-negative default before it is stored (the listening predicate is true exactly for the non-negative limits)')
+    ls = [f for f in fx.fn(A + '::listen') if 'error_code' in f.sig][0]
+    run.touch(ls)
+    qn = ls.params[0].get('name')
+    norm = []
+    for s_, d_ in q.local_defs(ls, ls.params[0]['did']) if 'did' in ls.params[0] else []:
+        v = q.const_eval(ls, d_, lambda t: None)
+        if isinstance(v, int) and not isinstance(v, bool) and v >= 0:
+            norm.append(s_)
+    ok = False
+    why = 'no assignment of a non-negative default to `%s`' % qn
+    for s_ in norm:
+        g = q.guards_at(ls, s_)
+        vals = {v: all((q.const_eval(ls, a_, lambda t, v=v: v if t == qn else None) is True) == p_ for a_, p_ in g) for v in (-1000, -2, -1, 0, 1, 20)}
+        if g and vals[-1000] and vals[-2] and vals[-1] and not vals[0] and not vals[1] and not vals[20]:
+            stores = [a.site for a in q.field_accesses(ls, {A + '::m_queue_size_limit'}) if a.kind == 'assign']
+            if stores and all(any(q.precedes(ls, a_, st_) for a_, p_ in g) for st_ in stores) and all(ls.cfg._reaches(ls.cfg.node_block(s_), ls.cfg.node_block(st_)) or ls.cfg.node_block(s_) == ls.cfg.node_block(st_) for st_ in stores):
+                ok = True
+        else:
+            why = 'the default replaces the backlog for %s only' % sorted(v for v, t in vals.items() if t)
+    run.check(ok, 'R5', 'listen-means-listening', A + '::listen(int, error_code&)', ls.loc(norm[0]) if norm else ls.loc(),
+              'listen(n, ec) stores a negative backlog as it is (%s): the call reports success, but internal_is_listening() is false for it - every connect is refused and the posted accept never completes' % why,
+              'every negative backlog becomes the default before the store')
+
+
 def acceptor_reopen_rule(run):
     """socket::open() closes the socket first, but with static binding: re-opening an OPEN acceptor through the inherited
     open() runs socket::close(), not acceptor::close(), so the listen state and the accept queue survive. The acceptor
@@ -490,6 +546,11 @@ def check(run):
     abandoned_connect_rules(run)
     peer_gone_rule(run)
     channel_end_identity_rule(run)
+    failed_connect_resumes_parked_rule(run)
+    listen_means_listening_rule(run)
+    run.clause('the endpoint getters report the outcome of THAT call: remote_endpoint(ec) / local_endpoint(ec) clear ec on success (shared with C08)')
+    import p08 as _p08
+    _p08.ec_sets_rule(run, [(T + '::remote_endpoint', 'error_code'), ('sim::asio::socket_base::local_endpoint', 'error_code'), ('sim::asio::socket_base::local_bound_to', 'error_code')])
     run.clause('an accept is outstanding exactly while a handler slot is set: the hand-out in check_accept_queue is decided by the handler slots (shared with C06/C16)')
     import p06 as _p06
     _p06.accept_queue_rules(run)
